@@ -261,7 +261,7 @@ pub fn run(ctx: &Ctx) -> i32 {
     );
     let gates = ctx.gates_for("C15");
     let off = gates.off_list();
-    let cases = ctx.tier.pick(6_000, 100_000);
+    let cases = ctx.tier.pick(20_000, 300_000);
     let out = run_tapes("C15", ctx.seed, ctx.threads, cases, 900, |tape, stats, counting| {
         let mut g = Gates::with_off(off.clone());
         if g.is_off("SEMANTIC_TOKENS_NON_ASCII_DOCUMENT") {
